@@ -13,9 +13,12 @@ import (
 	"bytes"
 	"context"
 	"fmt"
+	"io"
 	"os"
 	"path/filepath"
+	"time"
 
+	"github.com/gordonklaus/portaudio"
 	"github.com/scottyw/tetromino/gameboy"
 
 	"verif/internal/lockstep"
@@ -242,6 +245,7 @@ func run(c *rig.Ctx) {
 
 	pairs(c)
 	fileWriters(c)
+	ramStores(c)
 
 	// (5) wiring through gameboy.New
 	c.Part("wiring", c.N(24, 180), func(i int64, r *rig.Rng) {
@@ -265,6 +269,15 @@ func run(c *rig.Ctx) {
 		// every configuration: with and without a writer, with the debug options on and off
 		variant := int(i % 6)
 		cfg := gameboy.Config{RomFilename: path, DisableVideoOutput: true, DisableAudioOutput: true, SerialWriter: buf}
+		if i%12 >= 6 && variant != 2 && variant != 4 && variant != 5 {
+			// sound output attached (fake device) and a writer that stalls now and then: every
+			// byte still arrives, in order
+			portaudio.XReset()
+			portaudio.Sink = func(int64, []float32) {}
+			cfg.DisableAudioOutput = false
+			cfg.SerialWriter = &stallingWriter{w: buf}
+			c.Count("wiring_runs_with_audio_and_stalling_writer", 1)
+		}
 		cfg.DebugCPU = variant == 1 || variant == 2
 		cfg.DebugLCD = variant == 3 || variant == 4
 		if variant == 2 || variant == 4 || variant == 5 {
@@ -304,12 +317,29 @@ func run(c *rig.Ctx) {
 		if d := diff(buf.Bytes(), want); d != "" {
 			c.Violate("wiring-"+classOf(buf.Bytes(), want), fmt.Sprintf("through gameboy.New (DebugCPU=%v DebugLCD=%v writer=%v), %d frames of %s: %s", cfg.DebugCPU, cfg.DebugLCD, cfg.SerialWriter != nil, frames, p.Describe(), d), nil)
 		}
+		if !cfg.DisableAudioOutput && variant != 0 && variant != 3 {
+			gb.Cleanup()
+		}
 		c.Count("wiring_runs", 1)
 		c.Case(rig.Hash(p.Hash, uint64(frames)))
 	})
 }
 
 var romLog = map[string][]byte{}
+
+// stallingWriter passes bytes on, pausing for a few milliseconds every 700 bytes.
+type stallingWriter struct {
+	w io.Writer
+	n int
+}
+
+func (s *stallingWriter) Write(p []byte) (int, error) {
+	s.n += len(p)
+	if s.n%700 == 0 {
+		time.Sleep(8 * time.Millisecond)
+	}
+	return s.w.Write(p)
+}
 
 func min(a, b int) int {
 	if a < b {
